@@ -511,6 +511,7 @@ impl<TStdlib: Stdlib, TStdIn: Input, TStdOut: Printer, TLpt1: Printer>
                 self.take_last_error_address().with_err_at(&pos)?;
                 ctx.opt_next_index = Some(resume_label.address());
                 self.context.pop();
+                self.abandon_active_calls();
             }
             Instruction::Throw(interpreter_error) => {
                 return Err(interpreter_error.clone()).with_err_at(&pos);
@@ -623,6 +624,21 @@ impl<TStdlib: Stdlib, TStdIn: Input, TStdOut: Printer, TLpt1: Printer>
             self.go_sub_address_stack.pop()
         } else {
             None
+        }
+    }
+
+    /// `RESUME label` continues in the main module, where the label is:
+    /// the SUB / FUNCTION calls that were active when the error was raised are over.
+    fn abandon_active_calls(&mut self) {
+        if let Some((_, register_frames, parked_values, pending_go_subs)) =
+            self.return_address_stack.first().copied()
+        {
+            self.register_stack.truncate(register_frames);
+            self.value_stack.truncate(parked_values);
+            self.go_sub_address_stack.truncate(pending_go_subs);
+            self.return_address_stack.clear();
+            self.stacktrace.clear();
+            self.context.unwind_to_main_module();
         }
     }
 
